@@ -950,7 +950,7 @@ def gen(seed, tier):
         r = rnd.random()
         if r < 0.04:
             # TWO programs through one writer: initProgram starts afresh (the model's CInit clears names, directives, conditions and - since
-            # the repair 537d726 - the theory store). Judged through the model only (the oracle cannot cut the text between the programs);
+            # the repair b0fbe3f - the theory store). Judged through the model only (the oracle cannot cut the text between the programs);
             # the harness-side primer (primed()) gives the oracle-level verdict on the second program.
             p1 = g_program(rnd, theory=True, redefine=rnd.random() < 0.3)
             if rnd.random() < 0.4 and len(p1) > 3:
